@@ -1,6 +1,7 @@
 package props
 
 import (
+	"bytes"
 	"context"
 	"fmt"
 	"io"
@@ -144,7 +145,8 @@ func twoSourceManager(ctx context.Context, rr *core.Rand, s int) string {
 	if err := <-ec; err != nil {
 		return "first run: " + err.Error()
 	}
-	deadline := time.Now().Add(3 * time.Second)
+	settled := false
+	deadline := time.Now().Add(8 * time.Second)
 	for time.Now().Before(deadline) {
 		done := 0
 		for _, row := range pg.Rows("shovel.task_updates") {
@@ -153,11 +155,50 @@ func twoSourceManager(ctx context.Context, rr *core.Rand, s int) string {
 			}
 		}
 		if done >= 4 {
+			settled = true
 			break
 		}
 		time.Sleep(10 * time.Millisecond)
 	}
-	return fmt.Sprintf("rows=%d", len(pg.Rows("ttwo")))
+	if !settled {
+		return "ok" // (the machine is too busy: nothing to compare)
+	}
+	time.Sleep(50 * time.Millisecond)
+	// every row is stamped with the pair that produced it: per (source, integration) as many rows as that
+	// source's chain has Transfer logs in blocks 1..29 (the two chains are different chains)
+	count := func(n *simnode.Node) int {
+		k := 0
+		n.With(func(c *simnode.Chain) {
+			for _, b := range c.Blocks[1:] {
+				for _, t := range b.Txs {
+					for _, l := range t.Logs {
+						if len(l.Topics) == 3 && bytes.Equal(l.Topics[0], transferEvent.SignatureHash()) {
+							k++
+						}
+					}
+				}
+			}
+		})
+		return k
+	}
+	want := map[string]int{"sa/igtwo": count(n1), "sb/igtwo": count(n2), "sa/iglogs": count(n1), "sb/iglogs": count(n2)}
+	got := map[string]int{}
+	for _, tb := range []string{"ttwo", "tlogs"} {
+		for _, r := range pg.Rows(tb) {
+			got[fmt.Sprint(r["src_name"])+"/"+fmt.Sprint(r["ig_name"])]++
+		}
+	}
+	for k, w := range want {
+		if got[k] != w {
+			return fmt.Sprintf("rows stamped %s: %d, that pair's chain yields %d (all stamps: %v)", k, got[k], w, got)
+		}
+	}
+	for k := range got {
+		if _, ok := want[k]; !ok {
+			return fmt.Sprintf("rows stamped with a pair that does not exist: %s (%v)", k, got)
+		}
+	}
+	return "ok"
 }
 
 func runC18(e *core.Env) error {
@@ -251,7 +292,7 @@ func runC18(e *core.Env) error {
 	// (E) one declaration on two sources through the real Manager / loadTasks
 	for s := 0; s < e.N(4, 16); s++ {
 		out := twoSourceManager(ctx, r.Fork(), s)
-		e.Add(core.Case{Impl: out, Spec: out, Key: fmt.Sprintf("c18-two-sources %d", s), Nontrivial: true, Tags: []string{"scenarios", "one-declaration-two-sources-through-loadTasks"}})
+		e.Add(core.Case{Impl: out, Spec: "ok", Key: fmt.Sprintf("c18-two-sources %d", s), Nontrivial: true, Tags: []string{"scenarios", "one-declaration-two-sources-through-loadTasks"}})
 	}
 	// (D) the manager with restarts
 	for s := 0; s < e.N(3, 20); s++ {
